@@ -15,15 +15,21 @@ Clauses of the property and where they are:
   `offset_TDB_TT`, `tdb_tt_bound`, `offset_antisymm`, `offset_compose`, `leap_table_facts`
 * one instant — `normalise_spec`, `changeScale_instant` (every scale pair: the instant moves only by rounding
   ≤ 1.5 µs plus the disagreement of the EOP records), `changeScale_same_instant` (exact, uniform scales),
-  `changeScale_roundtrip` (same clock reading), `changeScale_instant_bound_partial` (UT1/TDB; see there)
+  `changeScale_roundtrip` (same clock reading), `changeScale_instant_bound` / `_half` (UT1: 1.5 µs / 0.5 µs when both
+  dates carry the same EOP record), `mk_record_of_utc_day`, `records_agree` (when they do),
+  `changeScale_instant_bound_partial` (what is still missing; see there)
 * missing data policy — `eop_policy_spec`, `eop_lookup_day`
 * arithmetic — `add_clock` (the clock reading moves by exactly t, every scale), `add_sub`, `add_sub_const_scales`,
   `add_assoc_clock`, `add_assoc_instant`
-* ordering / equality / hash — `cmp_consistent`, `label_irrelevant`
+* ordering / equality / hash — `cmp_consistent`, `eq_iff_sub_zero`, `cmp_exact_us`, `label_irrelevant`
 * ranges — `range_iter_is_progression`, `range_len_eq_length_iter`, `range_mem_of_iter`, `range_make_spec`
 
-False of the current code (see `Witness/C03.lean`): same instant within 1 µs for conversions to/from UT1 when
-the label day differs from the UTC day.
+History: until /repo commit fc514f7 the EOP record was looked up by the day number of the label scale and a conversion
+to UT1 near midnight moved the instant by a millisecond (old witness `label_day_changes_instant`); until d8c716a the
+comparisons used the double `_mjd`.  The model follows the fixed code: `eopFor` (second lookup by UTC day,
+`mk_record_of_utc_day`), comparisons and hash on `_datetime` (`cmp_consistent`, `eq_iff_sub_zero`).
+Still false of the code (see `Witness/C03.lean`): same instant within 1 µs for conversions to/from UT1 when the UTC
+reading lies within one day's change of UT1−UTC (a few ms) of UTC midnight — UT1−UTC is a step function of the UTC day.
 -/
 namespace BeyondVerif.C03
 open BeyondVerif.Date BeyondVerif.Generated
@@ -52,6 +58,11 @@ def chkAdd (a b c : Nat) : Bool :=
 def chkUniform (a b : Nat) : Bool :=
   match coefAB cfg a b with
   | some p => decide (p.ut1 = 0 ∧ p.tdb = 0 ∧ p.c % 10 = 0)
+  | none => false
+
+def chkNoTdb (a b : Nat) : Bool :=
+  match coefAB cfg a b with
+  | some p => decide (p.tdb = 0)
   | none => false
 
 def chkConst (a : Nat) : Bool :=
@@ -323,15 +334,90 @@ theorem changeScale_roundtrip {env : Env} {x y z : Date} {new : Nat} (hx : WF cf
   refine ⟨hi'.trans hi, hs', hoff, ?_⟩
   simp only [Date.datetime, Date.datetimeRef, hzs.1, hzs.2, hoff]
 
+/-- every scale but TDB -/
+def noTdbIx : List Nat := [ix "UTC", ix "TAI", ix "TT", ix "GPS", ix "UT1"]
+
+theorem noTdb_coef : ∀ a ∈ noTdbIx, ∀ b ∈ noTdbIx, ∃ p, coefAB cfg a b = some p ∧ p.tdb = 0 := by
+  have h : ∀ a ∈ noTdbIx, ∀ b ∈ noTdbIx, chkNoTdb a b = true := by decide
+  intro a ha b hb
+  have := h a ha b hb
+  unfold chkNoTdb at this
+  split at this
+  · next p hp => exact ⟨p, hp, of_decide_eq_true this⟩
+  · cases this
+
+theorem noTdb_sub_all : ∀ a ∈ noTdbIx, a ∈ allIx := by decide
+theorem ref_noTdb : cfg.ref ∈ noTdbIx := by decide
+
+/-- when the converted date carries the same EOP record as the original one, the three offsets involved cancel exactly
+(every pair of scales among UTC, TAI, TT, GPS, UT1) -/
+theorem drift_zero {env : Env} {x y : Date} {new : Nat} {off : Int} (hx : WF cfg env x) (hy : WF cfg env y)
+    (hys : y.scale = new) (hsc : x.scale ∈ noTdbIx) (hnew : new ∈ noTdbIx)
+    (ho : offset cfg env x.scale new x.inst x.eop = .ok off) (hrec : y.eop = x.eop) : y.off + off - x.off = 0 := by
+  obtain ⟨n1, hxo⟩ := hx.off_eq
+  obtain ⟨n2, hyo⟩ := hy.off_eq
+  rw [hys] at hyo
+  obtain ⟨p, q, hp, hq, hr⟩ := coef_table.2 _ (noTdb_sub_all _ hsc) _ (noTdb_sub_all _ hnew) _ (noTdb_sub_all _ ref_noTdb)
+  obtain ⟨p', hp', pt⟩ := noTdb_coef _ hsc _ hnew
+  obtain ⟨q', hq', qt⟩ := noTdb_coef _ hnew _ ref_noTdb
+  rw [hp] at hp'; cases hp'
+  rw [hq] at hq'; cases hq'
+  rw [offset_eq_eval hp] at ho
+  rw [offset_eq_eval hq] at hyo
+  rw [offset_eq_eval hr] at hxo
+  have ho := Except.ok.inj ho
+  have hyo := Except.ok.inj hyo
+  have hxo := Except.ok.inj hxo
+  rw [← ho, ← hyo, ← hxo, hrec]
+  simp only [Coef.eval, Coef.add, pt, qt, zero_mul, add_zero]
+  ring
+
+/-- **same instant for conversions involving UT1** (and every other pair without TDB): when the converted date carries
+the EOP record of the original one — which since fc514f7 is the record of the UTC day, see `mk_record_of_utc_day` and
+`records_agree` — the instant moves only by the rounding of `timedelta`: at most 1.5 µs -/
+theorem changeScale_instant_bound {env : Env} {x y : Date} {new : Nat} (hx : WF cfg env x)
+    (hsc : x.scale ∈ noTdbIx) (hnew : new ∈ noTdbIx)
+    (h : changeScale cfg env x new = .ok y) (hrec : y.eop = x.eop) :
+    -15 ≤ y.inst - x.inst ∧ y.inst - x.inst ≤ 15 := by
+  obtain ⟨off, ho, hs, hw, h1, h2⟩ := changeScale_instant hx h
+  have := drift_zero hx hw hs hsc hnew ho hrec
+  omega
+
+/-- … and by at most 0.5 µs when the source clock reading is a whole microsecond and its offset is not on a rounding
+tie (e.g. every conversion from UTC, TAI, TT, GPS to UT1) -/
+theorem changeScale_instant_bound_half {env : Env} {x y : Date} {new : Nat} (hx : WF cfg env x)
+    (hsc : x.scale ∈ noTdbIx) (hnew : new ∈ noTdbIx) (hus : (clock x) % 10 = 0) (htie : x.off % 10 ≠ 5)
+    (h : changeScale cfg env x new = .ok y) (hrec : y.eop = x.eop) :
+    -5 ≤ y.inst - x.inst ∧ y.inst - x.inst ≤ 5 := by
+  obtain ⟨off, ho, hs, hw, _, _⟩ := changeScale_instant hx h
+  obtain ⟨off', ho', h1, h2⟩ := changeScale_instant_half hx hus htie h
+  rw [ho] at ho'
+  have : off' = off := (Except.ok.inj ho').symm
+  subst this
+  have := drift_zero hx hw hs hsc hnew ho hrec
+  omega
+
+/-- two lookups on the same day with the same leap-second entry in force give the same record: the hypothesis
+`y.eop = x.eop` above holds whenever the UTC readings of the two dates fall on the same UTC day -/
+theorem records_agree {env : Env} {n m : Int} {e f : Eop} (hn : eopRaw env n = some e) (hm : eopRaw env m = some f)
+    (hd : Int.tdiv n D = Int.tdiv m D) (hl : taiUtcAt env.leap n = taiUtcAt env.leap m) : e = f := by
+  have := eopRaw_same_day (env := env) hd hl
+  rw [hn, hm] at this
+  exact Option.some.inj this
+
 /-
 Full statement for UT1 / TDB (property text): "within one microsecond, the resolution of the conversion".
-Proved: `changeScale_instant` (1.5 µs + drift, all pairs) and `changeScale_instant_half` (0.5 µs + drift when the
-source clock reading is a whole microsecond and its offset not on a tie).  Missing for the full statement:
-(1) `drift = 0` needs the two dates to use the same UT1−UTC record — false of the current code near midnight
-(`Witness/C03.lean`, known finding eop-record-by-label-day); (2) on a rounding tie of `_offset` the two separate
-`timedelta` roundings can differ by a whole microsecond, so 1.5 µs is the bound the code's arithmetic gives.
+Proved: `changeScale_instant_bound` (1.5 µs, every pair without TDB, when both dates carry the same EOP record),
+`changeScale_instant_bound_half` (0.5 µs from a whole-microsecond clock reading), `changeScale_instant` (every pair,
+with the TDB term: 1.5 µs + drift).  Missing for the full statement:
+(1) on a rounding tie of `_offset` the separate `timedelta` roundings of `_s` and `_offset` can differ by a whole
+microsecond, so 1.5 µs — not 1 µs — is the bound the code's arithmetic gives for a date whose clock reading is not a
+whole microsecond;
+(2) `y.eop = x.eop` fails when the UTC reading lies within one day's change of UT1−UTC of UTC midnight
+(`Witness/C03.lean: utc_midnight_band_changes_instant`, known finding ut1-step-at-utc-midnight);
+(3) with TDB the drift term `tdb(mjd₁) − tdb(mjd₂)` between the two `mjd` arguments (≈ 1e-10 s) is a parameter here.
 -/
-/-- conversions involving UT1 / TDB: when both dates use offsets that agree (`drift = 0`), the instant moves by at most 1.5 µs -/
+/-- conversions involving UT1 / TDB, stated on the offsets: when the offsets agree (`drift = 0`), the instant moves by at most 1.5 µs -/
 theorem changeScale_instant_bound_partial {env : Env} {x y : Date} {new : Nat} (hx : WF cfg env x)
     (h : changeScale cfg env x new = .ok y)
     (hdrift : ∀ off, offset cfg env x.scale new x.inst x.eop = .ok off → y.off + off = x.off) :
@@ -339,6 +425,50 @@ theorem changeScale_instant_bound_partial {env : Env} {x y : Date} {new : Nat} (
   obtain ⟨off, ho, _, _, h1, h2⟩ := changeScale_instant hx h
   have := hdrift off ho
   omega
+
+/-- **the EOP record of a date in TAI, TT or GPS is the one tabulated for its UTC reading** (fix fc514f7): with `e0` the
+record of the label day, `offU` the offset to UTC computed with it and `eU` the record found at `num + offU`, the date
+carries `eU`, and `num + offU` *is* its UTC clock reading `inst − TAI−UTC` — provided no leap second lies between the
+two readings -/
+theorem mk_record_of_utc_day {env : Env} {sc : Nat} {d s offU : Int} {x : Date} {e0 eU : Eop}
+    (hsc : sc ∈ uniformIx) (hne : sc ≠ cfg.utc) (h : mk cfg env sc d s = .ok x)
+    (h0 : eopRaw env (d * D + s) = some e0) (ho : offset cfg env sc cfg.utc (d * D + s) e0 = .ok offU)
+    (hU : eopRaw env (d * D + s + offU) = some eU)
+    (hl : taiUtcAt env.leap (d * D + s + offU) = taiUtcAt env.leap (d * D + s)) :
+    x.eop = eU ∧ x.inst - x.eop.taiUtc = d * D + s + offU := by
+  obtain ⟨hw, hs, hi, he⟩ := mk_spec h
+  have hrec := eopFor_record he h0 ho hU hl hne
+  refine ⟨hrec, ?_⟩
+  have htai : eU.taiUtc = e0.taiUtc := by
+    unfold eopRaw at h0 hU
+    split at h0
+    · cases h0
+    · split at h0
+      · cases h0
+      · next t ht =>
+        split at hU
+        · cases hU
+        · split at hU
+          · cases hU
+          · next t' ht' =>
+            cases h0; cases hU
+            rw [hl, ht] at ht'
+            exact (Option.some.inj ht').symm
+  obtain ⟨n1, hxo⟩ := hw.off_eq
+  rw [hs] at hxo
+  have hutc : cfg.utc ∈ uniformIx := by decide
+  obtain ⟨p, q, hp, hq, hr⟩ := coef_table.2 _ (uniform_sub_all _ hsc) _ (uniform_sub_all _ hutc) _ (uniform_sub_all _ ref_uniform)
+  obtain ⟨p', hp', pu, pt, _⟩ := uniform_coef _ hsc _ hutc
+  rw [hp] at hp'; cases hp'
+  have hq' : coefAB cfg cfg.utc cfg.ref = some ⟨0, 1, 0, 0⟩ := by decide
+  rw [hq] at hq'; cases hq'
+  rw [offset_eq_eval hp] at ho
+  rw [offset_eq_eval hr] at hxo
+  have ho := Except.ok.inj ho
+  have hxo := Except.ok.inj hxo
+  rw [hi, ← hxo, ← ho, hrec]
+  simp only [Coef.eval, Coef.add, pu, pt, htai, zero_mul, add_zero]
+  ring
 
 /-! ## missing-data policy and day lookup -/
 
@@ -462,27 +592,52 @@ theorem cmp_consistent (x y : Date) :
       (x.lt y = false ∧ x.eq y = false ∧ x.gt y = true)) ∧
     (x.le y = (x.lt y || x.eq y)) ∧ (x.ge y = (x.gt y || x.eq y)) ∧ (x.gt y = y.lt x) ∧ (x.ge y = y.le x) ∧
     (x.eq y = true → x.hashKey = y.hashKey) ∧ (x.eq y = y.eq x) := by
-  have hk : x.hashKey = x.inst ∧ y.hashKey = y.inst := ⟨rfl, rfl⟩
-  rcases lt_trichotomy x.inst y.inst with h | h | h
-  · have h1 : ¬ y.inst < x.inst := by omega
-    have h2 : x.inst ≠ y.inst := by omega
-    have h3 : x.inst ≤ y.inst := by omega
-    have h4 : ¬ y.inst ≤ x.inst := by omega
-    have h5 : y.inst ≠ x.inst := by omega
+  rcases lt_trichotomy x.datetimeRef y.datetimeRef with h | h | h
+  · have h1 : ¬ y.datetimeRef < x.datetimeRef := by omega
+    have h2 : x.datetimeRef ≠ y.datetimeRef := by omega
+    have h3 : x.datetimeRef ≤ y.datetimeRef := by omega
+    have h4 : ¬ y.datetimeRef ≤ x.datetimeRef := by omega
+    have h5 : y.datetimeRef ≠ x.datetimeRef := by omega
     simp [Date.lt, Date.le, Date.eq, Date.gt, Date.ge, h, h1, h2, h3, h4, h5]
   · simp [Date.lt, Date.le, Date.eq, Date.gt, Date.ge, Date.hashKey, h]
-  · have h1 : ¬ x.inst < y.inst := by omega
-    have h2 : x.inst ≠ y.inst := by omega
-    have h3 : y.inst ≤ x.inst := by omega
-    have h4 : ¬ x.inst ≤ y.inst := by omega
-    have h5 : y.inst ≠ x.inst := by omega
+  · have h1 : ¬ x.datetimeRef < y.datetimeRef := by omega
+    have h2 : x.datetimeRef ≠ y.datetimeRef := by omega
+    have h3 : y.datetimeRef ≤ x.datetimeRef := by omega
+    have h4 : ¬ x.datetimeRef ≤ y.datetimeRef := by omega
+    have h5 : y.datetimeRef ≠ x.datetimeRef := by omega
     simp [Date.lt, Date.le, Date.eq, Date.gt, Date.ge, h, h1, h2, h3, h4, h5]
 
-/-- **independent of the scale label**: every comparison and the hash key are functions of the instant alone -/
-theorem label_irrelevant (x y x' y' : Date) (hx : x.inst = x'.inst) (hy : y.inst = y'.inst) :
+/-- **comparisons agree with subtraction** (fix d8c716a): `a == b` iff `a - b` is zero, `a < b` iff `a - b` is negative -/
+theorem eq_iff_sub_zero (x y : Date) :
+    (x.eq y = true ↔ subDate x y = 0) ∧ (x.lt y = true ↔ subDate x y < 0) ∧ (x.gt y = true ↔ subDate x y > 0) := by
+  simp only [Date.eq, Date.lt, Date.gt, subDate, decide_eq_true_eq]
+  omega
+
+/-- on dates that are whole numbers of microseconds the comparisons are exactly those of the instants -/
+theorem cmp_exact_us (x y : Date) (hx : x.s % 10 = 0) (hy : y.s % 10 = 0) :
+    (x.eq y = true ↔ x.inst = y.inst) ∧ (x.lt y = true ↔ x.inst < y.inst) ∧ (x.le y = true ↔ x.inst ≤ y.inst) := by
+  have e1 := roundUs_exact hx
+  have e2 := roundUs_exact hy
+  have ex : x.inst = 10 * x.datetimeRef := by simp only [Date.inst, Date.datetimeRef, D, DUS]; omega
+  have ey : y.inst = 10 * y.datetimeRef := by simp only [Date.inst, Date.datetimeRef, D, DUS]; omega
+  rw [ex, ey]
+  refine ⟨?_, ?_, ?_⟩
+  · rw [Date.eq, decide_eq_true_iff]; omega
+  · rw [Date.lt, decide_eq_true_iff]; omega
+  · rw [Date.le, decide_eq_true_iff]; omega
+
+/-- **independent of the scale label**: every comparison and the hash key are functions of the instant alone (of
+`(_d, _s)`; neither `scale`, `_offset` nor `eop` enters) -/
+theorem label_irrelevant (x y x' y' : Date) (hxs : 0 ≤ x.s ∧ x.s < D) (hxs' : 0 ≤ x'.s ∧ x'.s < D)
+    (hys : 0 ≤ y.s ∧ y.s < D) (hys' : 0 ≤ y'.s ∧ y'.s < D) (hx : x.inst = x'.inst) (hy : y.inst = y'.inst) :
     x.lt y = x'.lt y' ∧ x.le y = x'.le y' ∧ x.eq y = x'.eq y' ∧ x.ge y = x'.ge y' ∧ x.gt y = x'.gt y' ∧
     x.hashKey = x'.hashKey := by
-  simp only [Date.lt, Date.le, Date.eq, Date.gt, Date.ge, Date.hashKey, hx, hy, and_self]
+  obtain ⟨a1, a2⟩ := hxs; obtain ⟨a3, a4⟩ := hxs'; obtain ⟨b1, b2⟩ := hys; obtain ⟨b3, b4⟩ := hys'
+  have a : x.d = x'.d ∧ x.s = x'.s := by simp only [Date.inst, D] at *; omega
+  have b : y.d = y'.d ∧ y.s = y'.s := by simp only [Date.inst, D] at *; omega
+  have hxr : x.datetimeRef = x'.datetimeRef := by simp only [Date.datetimeRef, a.1, a.2]
+  have hyr : y.datetimeRef = y'.datetimeRef := by simp only [Date.datetimeRef, b.1, b.2]
+  refine ⟨?_, ?_, ?_, ?_, ?_, ?_⟩ <;> simp only [Date.lt, Date.le, Date.eq, Date.gt, Date.ge, Date.hashKey, hxr, hyr]
 
 /-- hence a date and its conversion to another uniform scale compare equal and hash alike -/
 theorem changeScale_eq_hash {env : Env} {x y : Date} {new : Nat} (hx : WF cfg env x)
@@ -495,7 +650,7 @@ theorem changeScale_eq_hash {env : Env} {x y : Date} {new : Nat} (hx : WF cfg en
     have := hw.s_nonneg; have := hw.s_lt; have := hx.s_nonneg; have := hx.s_lt
     simp only [Date.inst, D] at *
     omega
-  refine ⟨by simp [Date.eq, hi], hi, ?_⟩
+  refine ⟨by simp [Date.eq, Date.datetimeRef, this.1, this.2], by simp [Date.hashKey, Date.datetimeRef, this.1, this.2], ?_⟩
   simp [subDate, Date.datetimeRef, this.1, this.2]
 
 /-! ## date ranges -/
